@@ -1075,9 +1075,11 @@ pub fn case(tier: &str, seed: u64, case: u64) -> CaseResult {
 	// the same sync between two real nodes with their complete p2p stacks, the simulator being the
 	// wire between them (E11 netsim): one fault-free run and one with a lossy, reordering, corrupting wire
 	if res.violations.is_empty() && !fat && !long {
-		for (i, faulty) in [false, true].iter().enumerate() {
+		// (segments fault free, segments over a faulty wire, the state archive fault free / with a first
+		// attempt that is corrupted or cut short)
+		for (i, (faulty, archive)) in [(false, false), (true, false), (case % 2 == 1, true)].iter().enumerate() {
 			let rs = rng.fork(&format!("pibd-net{}", i)).next_u64();
-			let out = crate::netsim::pibd_net_run(&world, rs, &format!("pibdnet-c{}r{}", case, i), *faulty, long);
+			let out = crate::netsim::pibd_net_run_mode(&world, rs, &format!("pibdnet-c{}r{}", case, i), *faulty, long, *archive);
 			res.runs += 1;
 			res.probe("netsim_runs");
 			res.steps += out.rounds;
@@ -1089,7 +1091,7 @@ pub fn case(tier: &str, seed: u64, case: u64) -> CaseResult {
 			}
 			res.run_digests.push((fnv64(out.log.join("\n").as_bytes()) ^ rs, *faulty));
 			if let Some(mut v) = out.violation {
-				v.replay = json!({"engine": "netsim", "mode": "pibd", "property": "C16", "case_seed": seed, "long": long, "fat": fat, "quiet": quiet, "run_seed": rs, "faulty": faulty,
+				v.replay = json!({"engine": "netsim", "mode": "pibd", "property": "C16", "case_seed": seed, "long": long, "fat": fat, "quiet": quiet, "run_seed": rs, "faulty": faulty, "archive": archive,
 					"log": out.log.iter().rev().take(30).cloned().collect::<Vec<_>>()});
 				res.violations.push(v);
 				break;
